@@ -155,15 +155,16 @@ def used_triples(spy):
     """the triples of posterior samples a scoring call summed over, read off the three pairwise-distance look-ups d[i,j] + d[j,k] + d[i,k]
     (independent of HOW the call produced its triples); None when the call did not read the matrix that way"""
     c = spy.calls
-    if len(c) < 3 or not (len(c[0][0]) == len(c[1][0]) == len(c[2][0])):
-        return None
-    (a, b), (b2, k3), (a2, k3b) = c[0], c[1], c[2]
-    if not (np.array_equal(b, b2) and np.array_equal(a, a2) and np.array_equal(k3, k3b)):
+    if len(c) < 3 or len(c) % 3:
         return None
     out = []
-    for x, y, z in zip(a.tolist(), b.tolist(), k3.tolist()):
-        t = sorted([x, y, z], reverse=True)
-        out.append({"ind": comb(t[0], 3) + comb(t[1], 2) + comb(t[2], 1), "t": t})
+    for g_ in range(0, len(c), 3):          # (a kernel may work through its triples in several blocks: three look-ups per block)
+        (a, b), (b2, k3), (a2, k3b) = c[g_], c[g_ + 1], c[g_ + 2]
+        if not (len(a) == len(b2) == len(a2) and np.array_equal(b, b2) and np.array_equal(a, a2) and np.array_equal(k3, k3b)):
+            return None
+        for x, y, z in zip(a.tolist(), b.tolist(), k3.tolist()):
+            t = sorted([x, y, z], reverse=True)
+            out.append({"ind": comb(t[0], 3) + comb(t[1], 2) + comb(t[2], 1), "t": t})
     return out
 
 
